@@ -4,7 +4,7 @@ prints a matrix and writes seeded/RESULTS.json.  usage: tools_seeded_all.py [nam
 import json, os, sys
 from concurrent.futures import ProcessPoolExecutor
 sys.path.insert(0, os.path.dirname(os.path.abspath(__file__)))
-from tools_neutral import patched_sources
+from ocv.patching import seeded_sources
 
 PROPS = [f"C{i:02d}" for i in range(1, 21)]
 
@@ -13,7 +13,7 @@ def one(args):
     name, prop = args
     from ocv.__main__ import analyse
     from ocv.core import VIOLATION, UNKNOWN
-    src = patched_sources(f"/verif/seeded/{name}/patch.diff")
+    src = seeded_sources(f"/verif/seeded/{name}")
     if src is None:
         return name, prop, "nopatch"
     try:
